@@ -78,6 +78,8 @@ ebbf229 C08 C08.errexit
 e4db022 C20 C20.pool
 0b60194 C15 C15.bucket
 2bd1055 C08 C08.cursorreset
+454c1ef C01 C01.timeunit
+6f1dab0 C03 C03.headercopy
 LIST
 git -C /repo worktree remove --force $WT
 rm -rf /tmp/fixcheck-ev
